@@ -687,3 +687,86 @@ pub fn stream_header_staging3_6_3_9() {
 pub fn stream_header_staging3_5_1_4() {
     header_staging::<5, 1, 4>()
 }
+
+/// C16(b) on the data arm of Stream::write, starting from a stream built directly in the data
+/// state with LEFT bytes left over in `tmp` (what header staging leaves behind): the first
+/// abstract symbol (2 bytes) is a literal, the second (3 bytes) is corrupt.
+fn data_arm_error<const LEFT: usize, const N: usize>() {
+    let mut t = Tape::<64>::new();
+    let left: [u8; 18] = t.bytes::<18>();
+    let input: [u8; N] = t.bytes::<N>();
+    let extra = [t.u8(), t.u8()];
+    let range = t.u32();
+    let code = t.u32();
+    let mut d = light_state::<0>(LzmaProperties { lc: 0, lp: 0, pb: 0 }, None);
+    set_script(&mut d, [script(2, K_LIT), script(3, K_BAD), script(1, K_LIT), script(20, K_LIT)]);
+    let mut tmp = std::io::Cursor::new([0u8; MAX_TMP_LEN]);
+    {
+        let b = tmp.get_mut();
+        let mut i = 0;
+        while i < LEFT {
+            b[i] = left[i];
+            i += 1;
+        }
+    }
+    tmp.set_position(LEFT as u64);
+    let rs = RunState {
+        decoder: d,
+        range,
+        code,
+        output: crate::decode::lzbuffer::verif_h::circ_from_stream_with_capacity(CountSink::new(), 0x1000, usize::MAX),
+    };
+    let mut s = Stream {
+        tmp,
+        state: Some(State::Data(Box::new(rs))),
+        options: opts(false, None),
+    };
+    let r1 = s.write(&input[..]);
+    let e1 = r1.is_err();
+    forget(r1);
+    // LEFT + N >= 5 bytes and the corrupt symbol is complete -> the error surfaces in this write
+    vassert!(e1, "stream: a corrupt symbol (in the staged leftover or the new input) is a write error");
+    vassert!(is_failed(&s), "stream: the stream is failed after a decoding error, also when it occurs while draining the staged bytes");
+    let r2 = s.write(&extra[..]);
+    match &r2 {
+        Ok(n) => {
+            vassert!(*n == 0, "stream: writes after a decoding error consume nothing");
+        }
+        Err(_) => {}
+    }
+    forget(r2);
+    let fin = s.finish();
+    vassert!(fin.is_err(), "stream: finish after a decoding error is an error");
+    forget(fin);
+    vcover!(true, "end_reached");
+}
+
+//@ harness props=C16,C07 tier=thorough optional=yes unwind=22 unwindset=process_mode:7,extend_with:3,CountSink.*4take:6 mem_gb=8 timeout=1800 native=no
+//@ bound: Stream built in the data state with 8 staged leftover bytes; write(3 symbolic bytes) where the second abstract symbol is corrupt; then write, finish
+#[cfg_attr(kani, kani::proof)]
+#[cfg_attr(kani, kani::stub(std::fmt::format, crate::verif_common::stub_format))]
+#[cfg_attr(kani, kani::stub(std::io::Error::is_interrupted, crate::verif_common::stub_not_interrupted))]
+#[cfg_attr(kani, kani::stub(crate::decode::lzma::DecoderState::process_next_inner, crate::decode::lzma::verif_h::abs_symbol))]
+pub fn stream_data_arm_error_l8_n3() {
+    data_arm_error::<8, 3>()
+}
+
+//@ harness props=C16,C07 tier=thorough optional=yes unwind=22 unwindset=process_mode:7,extend_with:3,CountSink.*4take:6 mem_gb=8 timeout=1800 native=no
+//@ bound: Stream built in the data state with 2 staged leftover bytes; write(20 symbolic bytes) where the second abstract symbol is corrupt; then write, finish
+#[cfg_attr(kani, kani::proof)]
+#[cfg_attr(kani, kani::stub(std::fmt::format, crate::verif_common::stub_format))]
+#[cfg_attr(kani, kani::stub(std::io::Error::is_interrupted, crate::verif_common::stub_not_interrupted))]
+#[cfg_attr(kani, kani::stub(crate::decode::lzma::DecoderState::process_next_inner, crate::decode::lzma::verif_h::abs_symbol))]
+pub fn stream_data_arm_error_l2_n20() {
+    data_arm_error::<2, 20>()
+}
+
+//@ harness props=C16,C07 tier=thorough optional=yes unwind=22 unwindset=process_mode:7,extend_with:3,CountSink.*4take:6 mem_gb=8 timeout=1800 native=no
+//@ bound: Stream built in the data state with 0 staged leftover bytes; write(6 symbolic bytes) where the second abstract symbol is corrupt; then write, finish
+#[cfg_attr(kani, kani::proof)]
+#[cfg_attr(kani, kani::stub(std::fmt::format, crate::verif_common::stub_format))]
+#[cfg_attr(kani, kani::stub(std::io::Error::is_interrupted, crate::verif_common::stub_not_interrupted))]
+#[cfg_attr(kani, kani::stub(crate::decode::lzma::DecoderState::process_next_inner, crate::decode::lzma::verif_h::abs_symbol))]
+pub fn stream_data_arm_error_l0_n6() {
+    data_arm_error::<0, 6>()
+}
